@@ -32,7 +32,8 @@ def run_c11(ctx):
     root = w.root
     location = os.path.join(root, ".xyz-" + NAME)
     # ------------------------------------------------------------ scenario
-    B = t.int_between(1, 3, "B")
+    deep = ctx.params.get("tier") == "thorough"
+    B = t.int_between(1, 4 if deep else 3, "B")
     per = t.int_between(1, 2, "per-batch")
     kind = t.weighted([("scalar", 3), ("tuple2", 1), ("str", 1), ("array", 1)], "kind")
     nvals = B * per
@@ -61,7 +62,7 @@ def run_c11(ctx):
     if len(batches) != B:
         raise HarnessError("expected {} batches got {}".format(B, len(batches)))
     # who grows what: every batch by someone, optionally some batch twice
-    ngrow = t.int_between(1, 3, "ngrowers")
+    ngrow = t.int_between(1, 4 if deep else 3, "ngrowers")
     assign = [[] for _ in range(ngrow)]
     for b in range(1, B + 1):
         assign[t.choose(ngrow, "assign")].append(b)
